@@ -27,6 +27,9 @@ def configs(tier):
     out.append(Config(front="wsgi", backend="tree", prefix="/", features={"two-workers", "restart", "head"}, label="tree/wsgi+two-workers", **tw))
     if tier == "thorough":
         out.append(Config(front="wsgi", backend="bare", prefix="/", features={"two-workers", "restart", "head", "recreate"}, label="bare/wsgi+two-workers", **tw))
+    # member names the store uses for itself
+    out.append(Config(front="wsgi", backend="tree" if tier == "quick" else "bare", prefix="/", features={"restart"}, names={"cal": ["a.ics", ".xandikos"], "ab": [".xandikos"], "c2": []},
+                      bodies={"cal": ["X", "CFG"], "ab": ["CFG", "K"], "c2": []}, props=props, oracles={"C01"}, label="%s/wsgi+reserved-names" % ("tree" if tier == "quick" else "bare")))
     out.append(e1common.StoreCfg(kinds=("tree", "bare", "mem", "vdir"), bodies=("X", "X2", "Z", "BAD", "R1", "R2"), oracles={"C01"}, features={"restart", "differential"} | ({"etagargs"} if tier == "thorough" else set())))
     if tier == "thorough":
         out += [
@@ -40,7 +43,7 @@ def run(tier, workers=None):
     def seeds(cfg):
         if isinstance(cfg, e1common.StoreCfg):
             return [[("put", "a.ics", "X", None), ("put", "b.ics", "Z", None), ("delete", "a.ics", None)]]
-        if "two-workers" in cfg.features:
+        if "two-workers" in cfg.features or "reserved-names" in cfg.label:
             return []
         hs = [[("mkcalendar", "c2"), ("put", "c2", "a.ics", "X")], [("put", "cal", "a.ics", "X"), ("put", "cal", "b.ics", "Z"), ("delete", "cal", "a.ics")],
               [("put", "cal", "a.ics", "X"), ("restart",), ("put", "cal", "a.ics", "X2")]]
